@@ -181,9 +181,12 @@ def run_sessions(pid, with_comments, verdict_filter, n_quick, n_thorough, rule_t
             continue
         rules, text, src = docs[idx]
         o = res[idx]["obs"]
-        sig = v + ":" + diagnose(o, v)
+        diag = diagnose_comments(o, src, v) if with_comments else diagnose(o, v)
+        sig = v + ":" + diag
         stats[sig] += 1
-        if sig in fsig:
+        if with_comments and diag in fsig:
+            out.known_hit(fsig[diag])
+        elif sig in fsig:
             out.known_hit(fsig[sig])
         else:
             out.violation(sig, {"property": pid, "verdict": v, "sig": sig, "cddl": text, "formatted": o.get("fmt"), "reparsed_ok": o.get("ok2"),
@@ -226,3 +229,66 @@ def diagnose(o, v):
             tags.append("comment-swallowed-code")
         return "+".join(tags) or "other"
     return "x"
+
+
+def comment_tokens(text):
+    """texts of the comments of a CDDL text: from ';' outside string / byte-string literals to the end of the line"""
+    out, i, n = [], 0, len(text)
+    while i < n:
+        c = text[i]
+        if c == '"':
+            i += 1
+            while i < n and text[i] != '"':
+                i += 2 if text[i] == "\\" else 1
+            i += 1
+        elif c == "'":
+            i += 1
+            while i < n and text[i] != "'":
+                i += 2 if text[i] == "\\" else 1
+            i += 1
+        elif c == ";":
+            j = text.find("\n", i)
+            j = n if j < 0 else j
+            out.append(text[i + 1:j].rstrip("\r"))
+            i = j
+        else:
+            i += 1
+    return out
+
+
+def diagnose_comments(o, src, v=""):
+    """C16 failure shapes: does some comment of the formatted text contain more than a source comment (code absorbed)?"""
+    f1 = o.get("fmt") or ""
+    srcs = [s.strip() for s in src]
+    absorbed = [c for c in comment_tokens(f1) + comment_tokens(o.get("fmt2") or "") if c not in src and c.strip() not in srcs]
+    if absorbed:
+        return "comment-absorbs-code"
+    c1 = sorted(comments_of_debug(o.get("comments", "")))
+    c2 = sorted(comments_of_debug(o.get("comments2", ""))) if o.get("ok2") else None
+    if c2 is not None and c1 != c2:
+        return "attached-comment-not-emitted" if len(c2) < len(c1) else "comment-duplicated"
+    if v == "bad:not-idempotent" and code_only(o.get("fmt") or "") == code_only(o.get("fmt2") or ""):
+        return "layout-not-idempotent"
+    return "other"
+
+
+def code_only(text):
+    """the text without comments, whitespace and (optional) commas"""
+    out, i, n = [], 0, len(text)
+    while i < n:
+        c = text[i]
+        if c in "\"'":
+            j = i + 1
+            while j < n and text[j] != c:
+                j += 2 if text[j] == "\\" else 1
+            out.append(text[i:j + 1])
+            i = j + 1
+        elif c == ";":
+            j = text.find("\n", i)
+            i = n if j < 0 else j
+        elif c in " \t\r\n,":
+            i += 1
+        else:
+            out.append(c)
+            i += 1
+    return "".join(out)
